@@ -5,6 +5,8 @@ import JV.Spec.BinFormats
 import JV.Model.Cbor
 import JV.Model.Msgpack
 import JV.Model.Ubjson
+import JV.Model.Bson
+import JV.Model.EncoderEvents
 namespace JV
 namespace Drv
 open Spec.Cbor
@@ -71,6 +73,45 @@ partial def cvOfTokens : List String → Option (Model.Cbor.CV × List String)
       mems [] rest
     | _ => none
 
+/-- one visitor event of the `bin events` token syntax (untagged, announced lengths only) -/
+def evOfToken (t : String) : Option Model.EncoderEvents.Ev :=
+  if t.contains '@' then none
+  else match t.toList with
+  | ['E', 'A'] => some .endArr
+  | ['E', 'O'] => some .endObj
+  | 'B' :: 'A' :: cs => (String.ofList cs).toNat?.map .beginArr
+  | 'B' :: 'O' :: cs => (String.ofList cs).toNat?.map .beginObj
+  | 'K' :: cs => (Wire.bytesOfHexChars cs).map .key
+  | 'S' :: cs => (Wire.bytesOfHexChars cs).map .str
+  | 'B' :: cs => (Wire.bytesOfHexChars cs).map .bytes
+  | 'I' :: cs => (String.ofList cs).toInt?.map .int
+  | 'U' :: cs => (String.ofList cs).toNat?.map fun n => .int n
+  | 'D' :: cs => if cs.length = 16 then (Wire.bytesOfHexChars cs).map fun b => .dbl (Spec.Cbor.beVal b) else none
+  | ['N'] => some .null
+  | ['T'] => some (.bool true)
+  | ['F'] => some (.bool false)
+  | _ => none
+
+/-- bin mev <fmt> <events…>  →  what the event-driven encoder model leaves in the sink | err (refused: a wrong announced length, an
+    integer the format cannot carry, BSON's document rules) -/
+def eventsLine (fmt : String) (toks : List String) : String :=
+  match toks.mapM evOfToken with
+  | none => ""
+  | some evs =>
+    if fmt = "bson" then
+      match Model.EncoderEvents.Bson.feed evs with
+      | some b => "ok x" ++ Wire.hexOfBytes b
+      | none => "err"
+    else match Model.EncoderLen.run [] (evs.map Model.EncoderEvents.shape) with
+      | .error _ => "err"
+      | .ok _ =>
+        if fmt = "cbor" then "ok x" ++ Wire.hexOfBytes (Model.EncoderEvents.feed Model.EncoderEvents.Cbor.emit evs)
+        else if fmt = "msgpack" then "ok x" ++ Wire.hexOfBytes (Model.EncoderEvents.feed Model.EncoderEvents.Msgpack.emit evs)
+        else if fmt = "ubjson" then
+          if evs.all (fun e => match e with | .int i => decide (i < 9223372036854775808) | _ => true)
+          then "ok x" ++ Wire.hexOfBytes (Model.EncoderEvents.feed Model.EncoderEvents.Ubjson.emit evs) else "err"
+        else ""
+
 /-- bin sdec <fmt> x<bytes> -/
 def binaryLine : List String → String
   | ["sdec", fmt, x] =>
@@ -106,6 +147,7 @@ def binaryLine : List String → String
      | some s => match Model.BigFloat.decodeBigfloat s with
        | some ((m, e), []) => "ok s" ++ Wire.hexOfBytes (Model.BigFloat.render m e)
        | _ => "err")
+  | "mev" :: fmt :: toks => eventsLine fmt toks
   | "menc" :: "cbor" :: toks =>
     match cvOfTokens toks with
     | some (v, []) => "ok x" ++ Wire.hexOfBytes (Model.Cbor.encode v)
@@ -119,6 +161,15 @@ def binaryLine : List String → String
     -- bin menc ubjson <wire value (core)>  →  the bytes encode_ubjson writes for it | err (an integer above 2^63-1)
     match cvOfTokens toks with
     | some (v, []) => if Model.Ubjson.representable v then "ok x" ++ Wire.hexOfBytes (Model.Ubjson.encode v) else "err"
+    | _ => ""
+  | "menc" :: "bson" :: toks =>
+    -- bin menc bson <wire value (core)>  →  the bytes encode_bson writes for it | err (a scalar root, an integer above 2^63-1, text that
+    -- is not UTF-8, nesting deeper than 1024)
+    match cvOfTokens toks with
+    | some (v, []) =>
+      (match Model.Bson.encode v with
+       | some b => if Model.Bson.representable v then "ok x" ++ Wire.hexOfBytes b else "err"
+       | none => "err")
     | _ => ""
   | _ => ""
 
